@@ -44,8 +44,8 @@ pub fn valid_literal(b: &[u8], radix: u32) -> bool {
     ndig > 0
 }
 
-/// every ASCII string of length <= LEN: Ok exactly for the valid literals of each radix, no panic
-pub fn tokens<L, const LEN: usize>()
+/// every ASCII string of length <= LEN: Ok exactly for the valid literals of the radix, no panic
+pub fn tokens<L, const LEN: usize, const RADIX: u32>()
 where
     L: Fixed,
 {
@@ -58,17 +58,12 @@ where
         i += 1;
     }
     let s = as_str(&buf[..n]);
-    let v10 = valid_literal(&buf[..n], 10);
-    kani::cover!(v10 && n == LEN, "W:valid decimal literal of full length");
-    kani::cover!(!v10 && n > 0, "W:invalid string");
-    assert!(L::overflowing_from_str(s).is_ok() == v10, "decimal: Ok exactly for [+-]digits[.digits] with a digit");
-    assert!(L::overflowing_from_str_binary(s).is_ok() == valid_literal(&buf[..n], 2), "binary: Ok exactly for valid literals");
-    assert!(L::overflowing_from_str_octal(s).is_ok() == valid_literal(&buf[..n], 8), "octal: Ok exactly for valid literals");
-    assert!(L::overflowing_from_str_hex(s).is_ok() == valid_literal(&buf[..n], 16), "hex: Ok exactly for valid literals");
-    // the other forms agree on being Ok for well-formed input (value: see the value harnesses)
-    assert!(L::wrapping_from_str(s).is_ok() == v10, "wrapping_from_str Ok exactly for valid literals");
-    assert!(L::saturating_from_str(s).is_ok() == v10, "saturating_from_str Ok exactly for valid literals");
-    assert!(!L::from_str(s).is_ok() || v10, "from_str Ok only for valid literals");
+    let v = valid_literal(&buf[..n], RADIX);
+    kani::cover!(v && n == LEN, "W:valid literal of full length");
+    kani::cover!(!v && n > 0, "W:invalid string");
+    let ok = if RADIX == 10 { L::overflowing_from_str(s).is_ok() } else if RADIX == 2 { L::overflowing_from_str_binary(s).is_ok() }
+        else if RADIX == 8 { L::overflowing_from_str_octal(s).is_ok() } else { L::overflowing_from_str_hex(s).is_ok() };
+    assert!(ok == v, "Ok exactly for [+-]digits[.digits] with at least one digit of the radix; every other string is an error");
 }
 
 /// expected outcome of parsing (-1)^neg * num / den (den > 0) into L, by exact integer division
@@ -114,6 +109,20 @@ where
     match plain {
         Ok(v) => assert!(!want.overflow && v.to_bits() == want.wrapped, "from_str = nearest (ties even) when in range"),
         Err(_) => assert!(want.overflow, "from_str fails only on overflow for a well-formed literal"),
+    }
+}
+
+#[inline(always)]
+pub fn check_parse_ovf<L: Fixed>(want: Want<L::Bits>, ovf: Result<(L, bool), substrate_fixed::ParseFixedError>)
+where
+    L::Bits: Raw,
+{
+    match ovf {
+        Ok((v, o)) => {
+            assert!(o == want.overflow, "overflowing_from_str flag <=> rounded value out of range");
+            assert!(v.to_bits() == want.wrapped, "overflowing_from_str value = nearest (ties even) mod 2^W");
+        }
+        Err(_) => assert!(false, "a well-formed literal parses"),
     }
 }
 
